@@ -142,6 +142,11 @@ def _move_endpoint(curr_pos, cmd, cmd_args, new_endpoint):
     return cmd, tuple(cmd_args)
 
 
+def clamp_opacity(value: float) -> float:
+    """Opacity values outside [0, 1] mean 0 or 1; that is settled before they multiply."""
+    return max(min(value, 1.0), 0.0)
+
+
 # Subset of https://www.w3.org/TR/SVG11/painting.html
 @dataclasses.dataclass
 class SVGShape:
@@ -398,7 +403,9 @@ class SVGShape:
             ("stroke", "fill_opacity"),
         ]:
             if getattr(target, fill_attr) == "none":
-                target.opacity *= getattr(target, opacity_attr)
+                target.opacity = clamp_opacity(target.opacity) * clamp_opacity(
+                    getattr(target, opacity_attr)
+                )
                 setattr(target, opacity_attr, default)
 
         return target
